@@ -1,7 +1,7 @@
 import CoapVerif.Model.Lock
 import CoapVerif.Generated.ThreadCfg
 /- Line-protocol driver for C13 (the global lock).
-     lkseq <rc:0|1> <tok>…                           one thread, tokens L U K+ K- R+ R- X+ X- Y+ Y-
+     lkseq <rc:0|1> <tok>…                           one thread, tokens L U K+ K- R+ R- X+ X- Y+ Y- W+ W-
      lksched <rc:0|1> <prog0>/<prog1>/… <t0,t1,…>     several threads (programs: tokens joined by `,`), a schedule
      lkcfg                                         the T1 build-configuration facts
    Output: `M <obs> <obs> … | S <exp> <exp> …`; obs = pidset,in_callback,lock_count,held,fault  or `blk` (blocked) -/
@@ -10,6 +10,9 @@ import CoapVerif.Generated.ThreadCfg
 -- DRIVER-OPS: lkcfg => Coap.Driver.Lock.cfgStep
 -- DRIVER-OPS: lkapi => Coap.Driver.Lock.apiStep
 -- DRIVER-OPS: lkcb => Coap.Driver.Lock.cbStep
+-- DRIVER-OPS: lkwin => Coap.Driver.Lock.winStep
+-- DRIVER-OPS: lkctxfail => Coap.Driver.Lock.ctxFailStep
+-- DRIVER-OPS: lkeintr => Coap.Driver.Lock.eintrStep
 -- DRIVER-OPS: lksmoke => Coap.Driver.Lock.smokeStep
 namespace Coap.Driver.Lock
 open Coap Coap.Lock
@@ -20,6 +23,7 @@ def tokOf (s : String) : Option Tok :=
   else if s = "R+" then some (.cbIn .ret) else if s = "R-" then some (.cbOut .ret)
   else if s = "X+" then some (.cbIn .rel) else if s = "X-" then some (.cbOut .rel)
   else if s = "Y+" then some (.cbIn .retRel) else if s = "Y-" then some (.cbOut .retRel)
+  else if s = "W+" then some (.cbIn .win) else if s = "W-" then some (.cbOut .win)
   else none
 
 def toksOf (ws : List String) : Option (List Tok) := ws.mapM tokOf
@@ -110,6 +114,45 @@ def cbStep (args : List String) : String :=
     match Generated.callbackSites.find? (fun s => s.file = f && s.func = fn && s.callee = c && toString s.k = k) with
     | some s => "M wrapped=" ++ b01 s.wrapped ++ " | S wrapped=1"
     | none => "M no-such-site | S wrapped=1"
+  | _ => "bad-op"
+
+def winLine (f : LockFn) : String :=
+  "held=" ++ b01 f.entryHeld ++ " windows=" ++ toString f.windows ++ " exits=" ++ b01 f.exitsBalanced ++
+  " loops=" ++ b01 f.loopsBalanced ++ " fail=" ++ b01 f.failLeaves ++ " order=" ++ b01 f.ordered ++ " quiet=" ++ b01 f.quiet
+
+/-- `lkwin <file> <func>`: the lock-balance facts of one function as recorded in Generated.lockWindows; S: balanced -/
+def winStep (args : List String) : String :=
+  match args with
+  | [f, n] =>
+    match Generated.lockWindows.find? (fun a => a.file = f && a.name = n) with
+    | some a => "M " ++ winLine a ++ " | S exits=1 loops=1 fail=1 order=1 quiet=1"
+    | none => "M no-such-site | S exits=1 loops=1 fail=1 order=1 quiet=1"
+  | _ => "bad-op"
+
+/-- `lkctxfail <mode>`: coap_new_context() fails; it is an API call `[lock, unlock]`: afterwards the lock is in its
+initial state (theorem `balanced`) -/
+def ctxFailStep (args : List String) : String :=
+  match args with
+  | [_] =>
+    match (runSeq (tokStep false) 0 [.lock, .unlock] G.init).getLast? with
+    | some (some o) => "M ret=null held=" ++ b01 o.held ++ " | S ret=null held=0"
+    | _ => "M ret=null held=? | S ret=null held=0"
+  | _ => "bad-op"
+
+/-- `lkeintr <rc>`: the I/O thread `[lock, cbIn win, cbOut win, unlock]` against a thread holding the lock in an event
+callback `[lock, cbIn ret, cbOut ret, unlock]`, scheduled so that the window closes (`cbOut win`, the EINTR return)
+while the other thread is inside its callback: the model refuses that turn (`blk`) and then runs to completion -/
+def eintrStep (args : List String) : String :=
+  match args with
+  | [r] =>
+    match rcOf r with
+    | some rc =>
+      let progs := progsOf [[.lock, .cbIn .win, .cbOut .win, .unlock], [.lock, .cbIn .ret, .cbOut .ret, .unlock]]
+      let r := runSched rc [0, 0, 1, 1, 0] progs G.init
+      let refused := r.1.getLast? == some none
+      let fin := finish rc 2 30 1 r.2.1 r.2.2
+      "M " ++ (if refused && fin == some G.init then "ok" else "unserialised") ++ " | S ok"
+    | none => "bad-op"
   | _ => "bad-op"
 
 /-- `lksmoke …`: a test, not a model run: the only acceptable outcome is `ok` -/
